@@ -81,6 +81,8 @@ def run(S):
     S.witness('C08.c.witness', E, pre, rv.t)
     height_timer(S, D)
     final_hop(S, D)
+    from .C02 import forward_admission_manager
+    forward_admission_manager(S, D, 'C08.e')
 
 
 def height_timer(S, D):
